@@ -3,6 +3,7 @@
   `Ty`, `Val`, `Err`.  Part of the correspondence machinery (trusted), not of the model.
 -/
 import BorshModel.De
+import BorshModel.Derive
 namespace Driver
 open Borsh
 
@@ -69,7 +70,8 @@ def hexChar (n : Nat) : Char :=
 def hexOf (bs : Bytes) : String :=
   String.ofList ('x' :: (bs.foldr (fun b acc => hexChar (b.toNat / 16) :: hexChar (b.toNat % 16) :: acc) []))
 
-def nameOf (s : String) : Name := s.toUTF8.toList
+/-- `~` stands for a space inside a declaration (`G1<u8,~String>`) -/
+def nameOf (s : String) : Name := (s.replace "~" " ").toUTF8.toList
 
 /-! ### Ty -/
 
@@ -148,11 +150,24 @@ partial def ty? : Sx → Option Ty
   | .list [.atom "result", a, b] => do some (Ty.result (← ty? a) (← ty? b))
   | .list (.atom "tuple" :: ts) => do some (Ty.tuple (← ts.mapM ty?))
   | .list (.atom "prod" :: k :: fs) => do some (.prod (← prodK? k) (← fs.mapM field?))
+  | .list (.atom "sum" :: .list [.atom "derivedsrc", .atom n, .atom i, .atom use] :: vs) => do
+    -- surface syntax of a derived enum: the tags are assigned by the model of the macro
+    let init ← bool01? i
+    let raw ← vs.mapM variantSrc?
+    let useDiscr := use == "1"
+    let tags := Derive.tagsOf useDiscr (raw.map (·.2.1))
+    some (.sum (.derived (nameOf n) init)
+      ((raw.zip tags).map fun p => (p.1.1, p.2, p.1.2.2)))
   | .list (.atom "sum" :: k :: vs) => do some (.sum (← sumK? k) (← vs.mapM variant?))
   | _ => none
 partial def field? : Sx → Option Field
   | .list [.atom n, .atom s, t] => do
     some ((if n == "_" then none else some (nameOf n)), (← bool01? s), (← ty? t))
+  | _ => none
+partial def variantSrc? : Sx → Option (Name × Option Int × List Field)
+  | .list (.atom n :: .atom d :: fs) => do
+    let discr ← (if d == "_" then some none else d.toInt?.map some)
+    some (nameOf n, discr, (← fs.mapM field?))
   | _ => none
 partial def variant? : Sx → Option Variant
   | .list (.atom n :: .atom g :: fs) => do some (nameOf n, (← g.toNat?), (← fs.mapM field?))
